@@ -741,6 +741,8 @@ pub fn run(ctx: &Ctx) -> Report {
         }
         last_setup = Some((setup.t, setup.steps.clone()));
     }
+    // the dynamic layout's self-declared column / offset parameters (see c01dyn.rs)
+    crate::props::c01dyn::sweep(ctx, &mut rep);
     let (setup_t, setup_steps) = last_setup.unwrap_or((0, vec![]));
     rep.extra.insert("trace_log_size".into(), json!(setup_t));
     rep.extra.insert("fri_steps".into(), json!(setup_steps));
@@ -751,6 +753,9 @@ pub fn run(ctx: &Ctx) -> Report {
 }
 
 pub fn replay(ctx: &Ctx, case: &Value) -> super::ReplayResult {
+    if case["kind"] == "dynparams" {
+        return crate::props::c01dyn::replay(ctx, case);
+    }
     // replay the materialised proof if present (it can also be fed to the CLI's verifier), else replay the moves
     if let Some(p) = case.get("proof").and_then(crate::props::common::proof_from_value) {
         let v = verify(&p, LAYOUT);
